@@ -1,5 +1,7 @@
 // C15 stress probe: threaded_dispatcher with 1..m workers, k producers, destruction while busy.
-// args: workers producers items mode(0: destroy after all handled, 1: destroy while busy) handler_delay_us
+// args: workers producers items mode(0: destroy after all handled, 1: destroy while busy, 2: rendezvous) handler_delay_us
+// mode 2 (multi-worker): flood, wait until handled (bounded), then dispatch one RENDEZVOUS job per worker: a job returns only
+//   when `workers` jobs are inside the handler at the same time (or after 1.2 s) -- so the number of workers still alive is observable.
 // -DVARIANT_SHUTDOWN: the derived destructor calls shutdown(); -DVARIANT_NOSHUTDOWN: it does not (known hazard).
 #include <atomic>
 #include <chrono>
@@ -9,6 +11,7 @@
 #include <thread>
 #include <vector>
 #include <mutex>
+#include <condition_variable>
 #include "threaded_dispatcher.h"
 
 struct Item { int producer; int seq; };
@@ -18,6 +21,10 @@ static std::vector<Item> g_log;              // handler call log (item, in handl
 static std::atomic<int> g_in_handler{0};
 static std::atomic<int> g_overlap{0};
 static int g_delay_us = 0;
+// rendezvous jobs (producer == -1)
+static std::mutex g_rv_m;
+static std::condition_variable g_rv_cv;
+static int g_rv_inside = 0, g_rv_max = 0, g_rv_need = 0, g_rv_finished = 0;
 
 class Disp : public XKoJen::threaded_dispatcher<Item> {
 public:
@@ -27,6 +34,17 @@ public:
 #endif
 protected:
     void handle_dispatch(ptr_type item) override {
+        if (item->producer == -1) {
+            std::unique_lock<std::mutex> lk(g_rv_m);
+            g_rv_inside++;
+            if (g_rv_inside > g_rv_max) g_rv_max = g_rv_inside;
+            g_rv_cv.notify_all();
+            g_rv_cv.wait_for(lk, std::chrono::milliseconds(1200), [] { return g_rv_max >= g_rv_need; });
+            g_rv_inside--;
+            g_rv_finished++;
+            g_rv_cv.notify_all();
+            return;
+        }
         if (g_in_handler.fetch_add(1) != 0) g_overlap++;
         if (g_delay_us) std::this_thread::sleep_for(std::chrono::microseconds(g_delay_us));
         { std::lock_guard<std::mutex> lk(g_log_m); g_log.push_back(*item); }
@@ -44,17 +62,27 @@ int main(int argc, char** argv) {
         Disp d(workers);
         std::vector<std::thread> ps;
         for (int p = 0; p < producers; p++)
-            ps.emplace_back([&d, p, items] { for (int i = 0; i < items; i++) { if (i % 2) d.dispatch(Item{p, i}); else { Disp::ptr_type q(new Item{p, i}); d.dispatch(q); } } });
+            ps.emplace_back([&d, p, items, mode] { for (int i = 0; i < items; i++) {
+                if (i % 2) d.dispatch(Item{p, i}); else { Disp::ptr_type q(new Item{p, i}); d.dispatch(q); }
+                // mode 2: trickle, so that the workers keep falling asleep on the empty queue and are woken one by one
+                if (mode == 2 && i % 3 != 2) { if (i % 2) std::this_thread::yield(); else std::this_thread::sleep_for(std::chrono::microseconds(1 + (i * 7 + p) % 40)); }
+            } });
         for (auto& t : ps) t.join();
-        if (mode == 0) {
-            for (int spin = 0; spin < 200000; spin++) {
+        if (mode == 0 || mode == 2) {
+            for (int spin = 0; spin < (mode == 2 ? 40000 : 200000); spin++) {
                 { std::lock_guard<std::mutex> lk(g_log_m); if ((int)g_log.size() == producers * items) break; }
                 std::this_thread::sleep_for(std::chrono::microseconds(50));
             }
         }
+        if (mode == 2) {
+            { std::lock_guard<std::mutex> lk(g_rv_m); g_rv_need = workers; }
+            for (int w = 0; w < workers; w++) d.dispatch(Item{-1, w});
+            std::unique_lock<std::mutex> lk(g_rv_m);
+            g_rv_cv.wait_for(lk, std::chrono::seconds(6), [workers] { return g_rv_finished >= workers; });
+        }
     }   // ~Disp: must terminate
     std::lock_guard<std::mutex> lk(g_log_m);
-    printf("handled %zu overlap %d\n", g_log.size(), g_overlap.load());
+    printf("handled %zu overlap %d alive %d of %d\n", g_log.size(), g_overlap.load(), mode == 2 ? g_rv_max : workers, workers);
     for (auto& it : g_log) printf("%d %d\n", it.producer, it.seq);
     return 0;
 }
